@@ -25,7 +25,8 @@ RULE = ('(1) pristine datasets of the five detectable conventions from the share
         'comma with / without blank, semicolon, line break), string-list valued, 0-2 unrelated convention names '
         'listed before / between / after its own - still a dataset of its convention; (2) every single '
         'near-miss mutation of each (Conventions marker, ems_version, cf_role, topology_dimension, each SHOC '
-        'coordinate variable, units/standard_name/axis of the latitude/longitude variables, 1-D vs 2-D coordinates, '
+        'coordinate variable, a SHOC standard dataset cut down to every proper subset of its four grids, '
+        'units/standard_name/axis of the latitude/longitude variables, 1-D vs 2-D coordinates, '
         'j/i dimensions, decoy variables in front, hybrids carrying the markers of two conventions); (3) random raw '
         'recipes around the predicates incl. a malformed stream (non-string / unhashable attribute values); for each: '
         'check_dataset of the six shipped classes, registry.match_conventions, get_dataset_convention. (4) all orders '
@@ -277,6 +278,17 @@ def unambiguous_mesh2d(ds) -> bool:
     return found
 
 
+def is_shoc_standard(ds) -> bool:
+    """the dataset carries the latitude and the longitude variable of each of the four SHOC standard grids
+    (names from the generator's own table, not from the convention class)"""
+    return all(c in ds.variables for c in R.SHOC_COORDS)
+
+
+def is_shoc_simple(ds) -> bool:
+    """the ems_version marker and the two SHOC simple grid dimensions"""
+    return 'ems_version' in ds.attrs and {'j', 'i'} <= set(ds.sizes)
+
+
 def oracle_detect(ctx, ds, feat: dict, reg_tokens: list, table: dict, desc: dict, pristine: str | None = None,
                   rebuild: bool = True) -> str:
     """Brute-force statement of the detection clauses of C11 on the real code.
@@ -330,8 +342,24 @@ def oracle_detect(ctx, ds, feat: dict, reg_tokens: list, table: dict, desc: dict
     if got is not None:
         name = cls_name(got)
         shoc_matches = [cls_name(c) for c, s in matches if cls_name(c) in ('ShocSimple', 'ShocStandard')]
+        # what makes a dataset a SHOC one, read from the content (not through check_dataset)
+        for n_, is_ in (('ShocStandard', is_shoc_standard(ds)), ('ShocSimple', is_shoc_simple(ds))):
+            if is_ and n_ not in shoc_matches:
+                shoc_matches.append(n_)
         if name in ('CFGrid1D', 'CFGrid2D') and shoc_matches:
             fail('shoc-not-preferred', f'{shoc_matches} match but the generic {name} was chosen')
+        # ... and the other direction: a SHOC convention handles only a dataset that is a SHOC one - SHOC
+        # standard is the eight latitude / longitude variables of its four grids (face, left, back, node),
+        # SHOC simple the ems_version marker with the j / i dimensions.  Anything less is not theirs to
+        # take from the generic conventions (or from being refused).
+        if name == 'ShocStandard' and not is_shoc_standard(ds):
+            missing = [c for c in R.SHOC_COORDS if c not in ds.variables]
+            fail('shoc-standard-without-its-coordinates',
+                 f'ShocStandard chosen for a dataset without the coordinate variable(s) {missing}; '
+                 f'other matches: {[(cls_name(c), int(s)) for c, s in matches if c is not got]}')
+        if name == 'ShocSimple' and not is_shoc_simple(ds):
+            fail('shoc-simple-without-marker-or-dimensions',
+                 f'ShocSimple chosen; ems_version present: {"ems_version" in ds.attrs}, dimensions {sorted(map(str, ds.dims))}')
         if name in ('CFGrid1D', 'CFGrid2D'):
             # what these two conventions are: latitude and longitude coordinates that are both one- (two-)
             # dimensional; a dataset whose coordinates are anything else is not theirs to accept
